@@ -52,7 +52,7 @@ def run(tier, seed):
                     for k in (1, 3, 6):
                         runs.append({"args": ["--workload", wl, "--rounds", "2", "--scale", "4", "--recover", "1", "--fault", str(k), "--kind", str(kind), "--persist"],
                                      "env": env, "tag": "%s.%s.%s" % (wl, sn, KINDS[kind]), "build": "dbg" if (k + kind) % 2 == 0 else "rel"})
-    # the scenario in which commits refused for good made one mi_malloc map segments without end (fixed in /repo c48fe6c), pinned
+    # the scenario in which commits refused for good made one mi_malloc map segments without end (fixed in /repo d8d5e17), pinned
     for sd in (101444, 101445, 101446):
         runs.append({"args": ["--workload", "mt", "--rounds", "2", "--scale", "4", "--recover", "1", "--fault", "3", "--kind", "3", "--persist"],
                      "env": SETTINGS[3][1], "tag": "mt.noarena.protect", "build": "dbg", "seed": sd})
